@@ -97,6 +97,9 @@ def elem_writes(fn, field, root_param=1):
 def is_time_comparator(F, v):
     """v: value of a comparator argument (closure aggregate or fn item)"""
     v = prov.strip(v, names={'clone'})
+    while v[0] == 'cast':                      # a fn item coerced to a fn pointer
+        v = next((y for y in v[1:] if isinstance(y, tuple) and y and isinstance(y[0], str)), ('unknown',))
+        v = prov.strip(v, names={'clone'})
     body = None
     if v[0] == 'agg' and v[1] == 'closure':
         body = F.fn(v[2])
@@ -265,7 +268,11 @@ def run(ctx):
     for path in ('taiko::convert::convert', 'mania::convert::convert', 'mania::convert::apply_hold_off_to_beatmap', 'mania::convert::apply_invert_to_beatmap'):
         f = F.fn(path)
         if f is not None:
-            f = inline.inlined(F, f)
+            # private helpers of the converter's own module are read through whatever they are called (a small `Order::of(..).apply(..)` type, say)
+            _mod = path.rsplit('::', 1)[0]
+            _loc = lambda h, _mod=_mod: not h.impl_trait and h.kind != 'Closure' and h.path.startswith(_mod) and len(h.blocks) < 40 and \
+                not str(h.j.get('vis')).startswith('Public') and h.name not in ('convert',) and not h.name.startswith('apply_')
+            f = inline.inlined(F, f, force=_loc)
         if f is None:
             ctx.violation('C19-R3', 'anchor-missing:' + path, 'not found')
             continue
